@@ -366,8 +366,12 @@ def judge(cloud, pools, req, outcome):
 
     ex = req['exact']
     if outcome[0] == 'crashed':
-        return [(f'request-crashes:{outcome[1]}:{outcome[2][:40]}',
-                 f'neither rejected nor placed: {outcome[1]}: {outcome[2][:200]} (the client gets a 500)')]
+        # a crash on a request that no collection of the deployment can hold is a different failure from a crash on a
+        # satisfiable one: the request got past the "fits on a worker" decision although it must be rejected
+        tail = '' if satisfiable(cloud, pools, ex) else ':request-no-collection-can-hold'
+        return [(f'request-crashes:{outcome[1]}:{outcome[2][:40]}{tail}',
+                 f'neither rejected nor placed: {outcome[1]}: {outcome[2][:200]} (the client gets a 500)'
+                 + (' - and no collection could hold this request, it had to be rejected' if tail else ''))]
     if outcome[0] == 'rejected':
         if satisfiable(cloud, pools, ex):
             holders = [p['name'] for p in pools if ex['machine_type'] is None and _pool_can_hold(cloud, p, ex)] or [JPIM]
